@@ -147,6 +147,67 @@ def run(ctx):
                 mgot = sorted(bytes.fromhex(x[1:]).decode() for x in mo[k])
                 if mgot != sorted(got):
                     ctx.corr_break("CORR-GLOB", {"tree": entries, "pattern": p, "model": mgot, "implementation": sorted(got)})
+    # 3. the same through the command line: `vore -files <pattern>` searches exactly the files of the list (the path from the flag to GetFileList is glue of its own).
+    # Every file holds one 'x', so the file names in the JSON result are the list; star-free patterns naming a file, a directory or nothing are included.
+    import json, os, shutil, subprocess, tempfile
+    cli = vh.build_cli()
+    base = os.path.join(vh.scratch(), "c20cli")
+    os.makedirs(base, exist_ok=True)
+    jobs = []
+    for files, entries, pl, absolute in tmeta[:(25 if quick else 400)]:
+        if any(len(e[0]) > 200 for e in entries) or len(entries) > 60:
+            continue
+        dirs = [e[0] for e in entries if e[1]]
+        plain = [q for q in (rng.sample(dirs, min(2, len(dirs))) + rng.sample(files, min(2, len(files))) + ["nosuch", "nosuch/a"]) if "*" not in q]
+        jobs.append((files, entries, list(pl)[:6] + plain, absolute))
+    def run_tree(job):
+        files, entries, pl, absolute = job
+        d = tempfile.mkdtemp(prefix="t", dir=base)
+        for path, isdir in entries:
+            full = os.path.join(d, path)
+            if isdir:
+                os.makedirs(full, exist_ok=True)
+            else:
+                os.makedirs(os.path.dirname(full), exist_ok=True)
+                open(full, "w").write("x")
+        out = []
+        for pat in pl:
+            arg = os.path.join(d, pat) if absolute else pat
+            try:
+                pr = subprocess.run([cli, "-com", "find all 'x'", "-files", arg, "-json"], cwd=d, capture_output=True, timeout=30)
+                out.append((pat, pr.returncode, pr.stdout.decode("latin-1"), pr.stderr.decode("latin-1")))
+            except subprocess.TimeoutExpired:
+                out.append((pat, -9, "", "timeout"))
+        shutil.rmtree(d, ignore_errors=True)
+        return d, out
+    from concurrent.futures import ThreadPoolExecutor
+    with ThreadPoolExecutor(12) as ex:
+        cres = list(ex.map(run_tree, jobs))
+    cli_runs = 0
+    for (files, entries, pl, absolute), (d, outs) in zip(jobs, cres):
+        for pat, rc, so, se in outs:
+            cli_runs += 1
+            ev += 1
+            want = expected(files, pat)
+            rep = {"tree": entries, "pattern": pat, "absolute": absolute, "argv": ["-com", "find all 'x'", "-files", ("<root>/" if absolute else "") + pat, "-json"], "exit": rc,
+                   "stdout": so[:300], "stderr": se[:300]}
+            if "panic" in se or "goroutine " in se or rc == -9:
+                ctx.violation("the command line crashes or hangs on -files %r" % pat, rep)
+                continue
+            try:
+                doc = json.loads(so)
+                got = []
+                for m in doc:
+                    fn = m["filename"]
+                    fn = os.path.relpath(os.path.normpath(fn), d) if os.path.isabs(os.path.normpath(fn)) else os.path.normpath(fn)
+                    got.append("/" + fn)
+            except Exception:
+                got = []
+            if sorted(got) != want:
+                ctx.violation("`vore -files %r` searches %r, the matching regular files are %r" % (pat, sorted(got), want), dict(rep, expected=want, searched=sorted(got)))
+            elif want:
+                nt += 1
+    ctx.coverage["command_line_runs"] = cli_runs
     ctx.coverage["evaluations"] = ev
     ctx.coverage["distinct_nontrivial"] = nt
     ctx.coverage["exhaustive"] = not quick
